@@ -1,6 +1,461 @@
 import PyCliffordModel.Proofs.ReachLemmas
 import PyCliffordModel.Proofs.PlaceLemmas
-/-! # Proofs/GroupLemmas — helper lemmas for the second parts of C05/C06/C12/C19 -/
-namespace PC
+/-! # Proofs/GroupLemmas — helper lemmas for the second parts of C05/C06/C12/C19
 
+Layout:
+* §1 all `2N` phases stay even: the post-measurement state (`pivotState_allHerm`), one measurement
+  (`measure1_allHerm`), lists (`measure_allHerm`), post-selection (`postselect_allHerm`), row-wise maps (`allHerm_map`);
+* §2 the encoding map of a tableau (`toMap_valid`);
+* §3 lists of observables: every stabilizer commuting with all observables is kept (`measure_keeps`), the full
+  description of a list measurement (`measure_list_full`), measuring a list of stabilizers (`measure_of_all_inGroup`);
+* §4 `stabilizer_state`: one projection step on a state whose active strings commute with the new string
+  (`project1_step`), the fold (`project_activeIs`), the commutation check (`acqMat_all_zero`).
+-/
+namespace PC
+namespace Gr
+open Ms
+
+/-! ## §1 all phases stay even -/
+
+/-- **all `2n` phases of the post-measurement state are even**, provided the stabilizer partner of a destabilizer pivot
+    commutes with the observable (true for the pivots chosen by `stabilizer_measure` and `stabilizer_postselection`) -/
+theorem pivotState_allHerm (st : State) (n : Nat) (obs : PStr) (p : Nat) (c : Int) (h : TabInv st n)
+    (hh : AllHerm st.rows) (hp : p < n + st.r)
+    (hpart : ∀ k, k < n → k + n = p → anti (gAt st.rows k) obs = false) (hc : c % 2 = 0) :
+    AllHerm (pivotState st obs true p c).rows := by
+  obtain ⟨_, s2, _, s4⟩ := pivotState_spec st n obs p c h hp
+  have hr := h.2.1
+  intro R hR
+  obtain ⟨k, hk, rfl⟩ := exists_rowAt_of_mem _ R hR
+  rw [s2] at hk
+  rw [s4 k hk]
+  split
+  · exact hc
+  · have hk' : (rowAt st.rows k).p % 2 = 0 := hh _ (rowAt_mem _ k (by rw [h.1]; exact hk))
+    have hp' : (rowAt st.rows p).p % 2 = 0 := hh _ (rowAt_mem _ p (by rw [h.1]; omega))
+    by_cases hkn : n ≤ k
+    · rw [updRow_p_keep _ _ _ _ _ _ _ (Or.inr hkn)]; exact hk'
+    · by_cases hkp : k + n = p
+      · have := hpart k (by omega) hkp
+        unfold gAt at this
+        rw [updRow_of_comm _ _ _ _ _ _ _ this]; exact hk'
+      · apply updRow_p_even _ _ _ _ _ _ _ hk' hp'
+        rw [h.2.2.2.1 k p hk (by omega), if_neg (by omega)]
+
+/-- the pivot of `stabilizer_measure` satisfies the hypothesis of `pivotState_allHerm` -/
+theorem isMeasPivot_partner (st : State) (n : Nat) (obs : PStr) (p : Nat) (h : TabInv st n)
+    (hpiv : IsMeasPivot st obs p) : ∀ k, k < n → k + n = p → anti (gAt st.rows k) obs = false := by
+  have hN := h.N_eq
+  intro k hk hkp
+  rcases hpiv.2 with ⟨_, h2, _⟩ | ⟨_, _, h3⟩
+  · rw [hN] at h2; omega
+  · exact h3 k (by omega)
+
+/-- one measurement keeps all `2n` phases even -/
+theorem measure1_allHerm (st st' : State) (n : Nat) (obs : Pauli) (coin : Bool) (out : Int) (rnd : Bool)
+    (h : TabInv st n) (hh : AllHerm st.rows) (ho : obs.g.length = n)
+    (hm : measure1 st obs coin = .ok (st', out, rnd)) : AllHerm st'.rows := by
+  rcases measure1_cases_inv st n obs coin h ho with ⟨p, hpiv, hpl, he⟩ | ⟨_, he⟩
+  · rw [he] at hm
+    injection hm with hm
+    injection hm with h1 _
+    subst h1
+    exact pivotState_allHerm st n obs.g p _ h hh hpl (isMeasPivot_partner st n obs.g p h hpiv)
+      (by cases coin <;> rfl)
+  · rw [he] at hm
+    injection hm with hm
+    injection hm with h1 _
+    subst h1
+    exact hh
+
+/-- lists of observables, every coin sequence -/
+theorem measure_allHerm (n : Nat) (obs : List Pauli) : ∀ (st st' : State) (coins rest : List Bool) (outs : List Int)
+    (k : Nat), TabInv st n → AllHerm st.rows → (∀ o ∈ obs, o.g.length = n ∧ o.p % 2 = 0) →
+    measure st obs coins = .ok (st', outs, k, rest) → AllHerm st'.rows := by
+  induction obs with
+  | nil =>
+    intro st st' coins rest outs k _ hh _ hm
+    simp only [measure] at hm
+    injection hm with hm
+    injection hm with h1 _
+    subst h1
+    exact hh
+  | cons o os ih =>
+    intro st st' coins rest outs k h hh ho hm
+    have ho1 := ho o (by simp)
+    have hos : ∀ o' ∈ os, o'.g.length = n ∧ o'.p % 2 = 0 := fun o' ho' => ho o' (by simp [ho'])
+    simp only [measure] at hm
+    cases h1 : measure1 st o (coins.headD false) with
+    | error e => rw [h1] at hm; exact absurd hm (by simp)
+    | ok res =>
+      obtain ⟨st1, out, rnd⟩ := res
+      rw [h1] at hm
+      simp only at hm
+      have i1 := measure1_inv st st1 n o _ out rnd h ho1.1 h1
+      have i2 := measure1_allHerm st st1 n o _ out rnd h hh ho1.1 h1
+      split at hm
+      · exact absurd hm (by simp)
+      · cases h2 : measure st1 os (if rnd then coins.tail else coins) with
+        | error e => rw [h2] at hm; exact absurd hm (by simp)
+        | ok res2 =>
+          obtain ⟨st2, outs2, k2, cs⟩ := res2
+          rw [h2] at hm
+          simp only at hm
+          injection hm with hm
+          injection hm with e1 _
+          subst e1
+          exact ih st1 st2 _ cs outs2 k2 i1 i2 hos h2
+
+/-- post-selection keeps all `2n` phases even -/
+theorem postselect_allHerm (st st' : State) (n : Nat) (P : Pauli) (res : Nat) (t : Dy) (h : TabInv st n)
+    (hh : AllHerm st.rows) (hp : P.p % 2 = 0) (hm : postselect st P res = .ok (st', t)) : AllHerm st'.rows := by
+  have hN := h.N_eq
+  have hr : st.r = 0 := by
+    by_cases e : st.r = 0
+    · exact e
+    · unfold postselect at hm
+      have : (st.r != 0) = true := by simp [e]
+      simp only [this] at hm
+      exact absurd hm (by simp)
+  rcases postselect_cases st P res hr with ⟨p, hp1, _, _, he⟩ | ⟨_, he⟩
+  · rw [he] at hm
+    injection hm with hm
+    injection hm with h1 _
+    subst h1
+    rw [hN] at hp1
+    exact pivotState_allHerm st n P.g p _ h hh (by omega) (fun k _ hk => by omega) (by omega)
+  · rw [he] at hm
+    split at hm
+    · injection hm with hm
+      injection hm with h1 _
+      subst h1
+      exact hh
+    · exact absurd hm (by simp)
+
+/-- a row-wise operation that keeps even phases keeps `AllHerm` -/
+theorem allHerm_map (T : List Pauli) (f : Pauli → Pauli) (hh : AllHerm T)
+    (hf : ∀ P ∈ T, P.p % 2 = 0 → (f P).p % 2 = 0) : AllHerm (T.map f) := by
+  intro R hR
+  obtain ⟨P, hP, rfl⟩ := List.mem_map.1 hR
+  exact hf P hP (hh P hP)
+
+theorem rotateMasked_p_even (G : Pauli) (m : List Bool) (P : Pauli) (hG : G.p % 2 = 0) (hP : P.p % 2 = 0) :
+    (rotateMasked G m P).p % 2 = 0 := by
+  rw [rotateMasked_eq_rotate_embedGen G P m]
+  exact rotate_p_even _ P hG hP
+
+/-! ## §2 the encoding map -/
+
+/-- **the encoding map of a tableau with the Gram pattern and even phases is a valid Clifford map** -/
+theorem toMap_valid (st : State) (n : Nat) (h : TabInv st n) (hh : AllHerm st.rows) :
+    ValidMap (stateToMap st.rows) n := by
+  obtain ⟨hl, _, hlen, hg, _⟩ := h
+  have hn : st.rows.length / 2 = n := by omega
+  have hrow : ∀ i, i < 2 * n → rowAt (stateToMap st.rows) i
+      = if i % 2 = 0 then rowAt st.rows (n + i / 2) else rowAt st.rows (i / 2) := by
+    intro i hi
+    rcases Nat.mod_two_eq_zero_or_one i with he | he
+    · rw [if_pos he]
+      have e : i = 2 * (i / 2) := by omega
+      conv => lhs; rw [e]
+      rw [St.rowAt_stateToMap_even _ _ (by omega), hn]
+    · rw [if_neg (by omega)]
+      have e : i = 2 * (i / 2) + 1 := by omega
+      conv => lhs; rw [e]
+      rw [St.rowAt_stateToMap_odd _ _ (by omega)]
+  have hmem : ∀ j, j < 2 * n → rowAt st.rows j ∈ st.rows := fun j hj => rowAt_mem _ j (by omega)
+  refine ⟨by rw [St.length_stateToMap, hn], ?_, ?_⟩
+  · intro R hR
+    obtain ⟨i, hi, rfl⟩ := exists_rowAt_of_mem _ R hR
+    rw [St.length_stateToMap, hn] at hi
+    rw [hrow i hi]
+    split
+    · exact ⟨hlen _ (hmem _ (by omega)), hh _ (hmem _ (by omega))⟩
+    · exact ⟨hlen _ (hmem _ (by omega)), hh _ (hmem _ (by omega))⟩
+  · intro i j hi hj
+    rw [hrow i hi, hrow j hj]
+    by_cases h1 : i % 2 = 0 <;> by_cases h2 : j % 2 = 0
+    · rw [if_pos h1, if_pos h2, hg _ _ (by omega) (by omega)]
+      split <;> split <;> omega
+    · rw [if_pos h1, if_neg h2, hg _ _ (by omega) (by omega)]
+      split <;> split <;> omega
+    · rw [if_neg h1, if_pos h2, hg _ _ (by omega) (by omega)]
+      split <;> split <;> omega
+    · rw [if_neg h1, if_neg h2, hg _ _ (by omega) (by omega)]
+      split <;> split <;> omega
+
+/-! ## §3 lists of observables -/
+
+/-- **the full description of a list measurement**: one bit per observable; every stabilizer of the initial state that
+    commutes with all observables is kept; if the observables commute pairwise, each of them with the sign of its recorded
+    outcome stabilizes the final state -/
+theorem measure_list_full (n : Nat) (obs : List Pauli) : ∀ (st st' : State) (coins rest : List Bool) (outs : List Int)
+    (k : Nat), TabInv st n → (∀ o ∈ obs, o.g.length = n ∧ o.p % 2 = 0) →
+    measure st obs coins = .ok (st', outs, k, rest) →
+    TabInv st' n ∧ outs.length = obs.length ∧
+    (∀ P : Pauli, InGroup st P → (∀ o ∈ obs, acq P.g o.g = 0) → InGroup st' P) ∧
+    ((∀ a ∈ obs, ∀ b ∈ obs, acq a.g b.g = 0) → ∀ i, i < obs.length →
+      (outs.getD i 0 = 0 ∨ outs.getD i 0 = 1) ∧
+      InGroup st' ⟨(rowAt obs i).g, (rowAt obs i).p + 2 * outs.getD i 0⟩) := by
+  induction obs with
+  | nil =>
+    intro st st' coins rest outs k h _ hm
+    simp only [measure] at hm
+    injection hm with hm
+    injection hm with h1 h2
+    injection h2 with h2 _
+    subst h1 h2
+    exact ⟨h, rfl, fun P hP _ => hP, fun _ i hi => absurd hi (by simp)⟩
+  | cons o os ih =>
+    intro st st' coins rest outs k h ho hm
+    have ho1 := ho o (by simp)
+    have hos : ∀ o' ∈ os, o'.g.length = n ∧ o'.p % 2 = 0 := fun o' ho' => ho o' (by simp [ho'])
+    simp only [measure] at hm
+    cases h1 : measure1 st o (coins.headD false) with
+    | error e => rw [h1] at hm; exact absurd hm (by simp)
+    | ok res =>
+      obtain ⟨st1, out, rnd⟩ := res
+      rw [h1] at hm
+      simp only at hm
+      have i1 := measure1_inv st st1 n o _ out rnd h ho1.1 h1
+      -- the first measurement
+      have hfirst : (out = 0 ∨ out = 1) ∧ InGroup st1 ⟨o.g, o.p + 2 * out⟩ ∧
+          ∀ P : Pauli, InGroup st P → acq P.g o.g = 0 → InGroup st1 P := by
+        cases rnd with
+        | false =>
+          obtain ⟨e, hout, hin⟩ := C06_determined st st1 n o _ out h ho1.1 ho1.2 h1
+          subst e
+          exact ⟨hout, hin, fun P hP _ => hP⟩
+        | true =>
+          obtain ⟨_, _, hout, hin, hkeep, _⟩ := C06_random st st1 n o _ out h ho1.1 ho1.2 h1
+          exact ⟨hout, hin, hkeep⟩
+      split at hm
+      · exact absurd hm (by simp)
+      · cases h2 : measure st1 os (if rnd then coins.tail else coins) with
+        | error e => rw [h2] at hm; exact absurd hm (by simp)
+        | ok res2 =>
+          obtain ⟨st2, outs2, k2, cs⟩ := res2
+          rw [h2] at hm
+          simp only at hm
+          injection hm with hm
+          injection hm with e1 e2
+          injection e2 with e2 _
+          subst e1 e2
+          obtain ⟨j1, j2, j3, j4⟩ := ih st1 st2 _ cs outs2 k2 i1 hos h2
+          refine ⟨j1, by simp [j2], ?_, ?_⟩
+          · intro P hP hcm
+            exact j3 P (hfirst.2.2 P hP (hcm o (by simp))) (fun o' ho' => hcm o' (by simp [ho']))
+          · intro hc i hi
+            have hcs : ∀ a ∈ os, ∀ b ∈ os, acq a.g b.g = 0 :=
+              fun a ha b hb => hc a (by simp [ha]) b (by simp [hb])
+            cases i with
+            | zero =>
+              rw [rowAt_cons_zero]
+              simp only [List.getD_cons_zero]
+              refine ⟨hfirst.1, j3 _ hfirst.2.1 ?_⟩
+              intro o' ho'
+              exact hc o (by simp) o' (by simp [ho'])
+            | succ i =>
+              rw [rowAt_cons_succ]
+              simp only [List.getD_cons_succ]
+              exact j4 hcs i (by simpa using hi)
+
+/-- **measuring a list of signed stabilizers**: the recorded outcomes are returned with certainty, no coin is used and the
+    state is unchanged -/
+theorem measure_of_all_inGroup (st : State) (n : Nat) (h : TabInv st n) : ∀ (obs : List Pauli) (outs : List Int)
+    (coins : List Bool), outs.length = obs.length →
+    (∀ i, i < obs.length → (rowAt obs i).g.length = n ∧ (outs.getD i 0 = 0 ∨ outs.getD i 0 = 1) ∧
+      InGroup st ⟨(rowAt obs i).g, (rowAt obs i).p + 2 * outs.getD i 0⟩) →
+    measure st obs coins = .ok (st, outs, 0, coins) := by
+  intro obs
+  induction obs with
+  | nil =>
+    intro outs coins hl _
+    have : outs = [] := List.eq_nil_of_length_eq_zero (by simpa using hl)
+    subst this
+    rfl
+  | cons o os ih =>
+    intro outs coins hl hall
+    cases outs with
+    | nil => simp at hl
+    | cons out outs2 =>
+      have h0 := hall 0 (by simp)
+      rw [rowAt_cons_zero] at h0
+      simp only [List.getD_cons_zero] at h0
+      have hm1 := measure1_of_inGroup st n o (coins.headD false) out h h0.1 h0.2.1 h0.2.2
+      have hrest := ih outs2 coins (by simpa using hl) (fun i hi => by
+        have := hall (i + 1) (by simpa using hi)
+        rw [rowAt_cons_succ] at this
+        simpa only [List.getD_cons_succ] using this)
+      simp only [measure, hm1]
+      simp [hrest]
+
+/-! ## §4 `stabilizer_state` -/
+
+/-- the commutation check of `stabilizer_state` passed: the strings commute pairwise -/
+theorem acqMat_all_zero (gs : List PStr) (h : ((acqMat gs).any fun row => row.any (· != 0)) = false) :
+    ∀ a ∈ gs, ∀ b ∈ gs, acq a b = 0 := by
+  intro a ha b hb
+  rw [List.any_eq_false] at h
+  have h1 := h (gs.map fun b => acq a b) (by unfold acqMat; exact List.mem_map.2 ⟨a, ha, rfl⟩)
+  have h1' : ((gs.map fun b => acq a b).any (· != 0)) = false := by simpa using h1
+  rw [List.any_eq_false] at h1'
+  have h2 := h1' (acq a b) (List.mem_map.2 ⟨b, hb, rfl⟩)
+  simpa using h2
+
+/-- the strings after scan (no phases) and `install`: pivot update followed by the slot permutation -/
+theorem project1_pivot_strings (T0 : List Pauli) (n r : Nat) (obs : PStr) (p : Nat) (hl : T0.length = 2 * n)
+    (hr : r ≤ n) (hp : p < 2 * n) (k : Nat) (hk : k < 2 * n) :
+    gAt (install (T0.mapIdx (updRow obs n false p (rowAt T0 p))) obs n r p (rowAt T0 p).g).1 k
+      = pivF n p obs (gAt T0) (installPerm n r p k) := by
+  have hr' : r - 1 < 2 * n := by omega
+  have hTl : (T0.mapIdx (updRow obs n false p (rowAt T0 p))).length = 2 * n := by
+    rw [List.length_mapIdx]; exact hl
+  obtain ⟨_, _, _, _, s5⟩ :=
+    install_spec (T0.mapIdx (updRow obs n false p (rowAt T0 p))) obs n r p (rowAt T0 p).g hTl hp hr'
+  rw [s5 k, installBase_scan T0 obs n p false hl _ (installPerm_lt n r p k hp hr' hk)]
+
+/-- **one projection step with a string that commutes with all active strings**: either nothing changes, or the rank
+    drops by one, the new string lands in the new first active slot and the other active strings stay in their slots -/
+theorem project1_step (st : State) (n : Nat) (obs : PStr) (h : TabInv st n) (ho : obs.length = n)
+    (hcomm : ∀ k, st.r ≤ k → k < n → anti (gAt st.rows k) obs = false) :
+    project1 st obs = st ∨
+    ((project1 st obs).r + 1 = st.r ∧ gAt (project1 st obs).rows (project1 st obs).r = obs ∧
+      ∀ k, st.r ≤ k → k < n → gAt (project1 st obs).rows k = gAt st.rows k) := by
+  have hN := h.N_eq
+  obtain ⟨hl, hr, hg, _⟩ := (tabInv_iff st n).1 h
+  rcases project1_cases st obs with ⟨p, hp, ha, _, he⟩ | ⟨_, he⟩
+  · right
+    rw [hN] at hp he
+    have hp2 : p < 2 * n := by omega
+    have hc : ¬ (st.r ≤ p ∧ p < n) := by
+      intro hc
+      rw [hcomm p hc.1 hc.2] at ha
+      exact absurd ha (by simp)
+    have hr1 : 1 ≤ st.r := by
+      apply Classical.byContradiction
+      intro hn
+      exact hc ⟨by omega, by omega⟩
+    obtain ⟨_, _, _, _, c5, _⟩ := pivot_install_core st.rows n st.r obs false p hl hg hr ho hp2 ha
+    have hrank : installRank n st.r p = st.r - 1 := by unfold installRank; rw [if_neg hc]
+    have hslot : installSlot n st.r p = st.r - 1 := by unfold installSlot; rw [if_neg hc]
+    rw [he]
+    simp only
+    refine ⟨by rw [hrank]; omega, by rw [hrank, ← hslot]; exact c5, fun k hk1 hk2 => ?_⟩
+    rw [project1_pivot_strings st.rows n st.r obs p hl hr hp2 k (by omega),
+      installPerm_active_fix n st.r p k hr hp hc hk1 hk2]
+    have hkp : k ≠ p := fun e => hc ⟨by omega, by omega⟩
+    have hkq : k ≠ partner n p := by
+      have := partner_cases n p hp2
+      omega
+    rw [pivF_other n p obs _ k hkp hkq, hcomm k hk1 hk2]
+    simp
+  · exact Or.inl he
+
+/-- the active strings of `st` are the list `A` (in slot order) -/
+def ActiveIs (st : State) (n : Nat) (A : List PStr) : Prop :=
+  st.r + A.length = n ∧ ∀ i, i < A.length → gAt st.rows (st.r + i) = A.getD i []
+
+/-- **the projection fold of `stabilizer_state`**: projecting pairwise commuting strings that commute with the active
+    strings lowers the rank by at most one per string, and when it drops every time the active strings afterwards are
+    the new strings in reverse order of processing followed by the old ones -/
+theorem project_activeIs (n : Nat) (l : List PStr) : ∀ (st : State) (A : List PStr), TabInv st n → AllHerm st.rows →
+    ActiveIs st n A → (∀ a ∈ l ++ A, a.length = n) → (∀ a ∈ l ++ A, ∀ b ∈ l ++ A, acq a b = 0) →
+    st.r ≤ (project st l).r + l.length ∧
+    ((project st l).r + l.length = st.r → ActiveIs (project st l) n (l.reverse ++ A)) := by
+  induction l with
+  | nil =>
+    intro st A _ _ hA _ _
+    exact ⟨by simp [project], fun _ => by simpa [project] using hA⟩
+  | cons o os ih =>
+    intro st A h hh hA hlen hcm
+    have hproj : project st (o :: os) = project (project1 st o) os := by simp [project]
+    have hol : o.length = n := hlen o (by simp)
+    have hsub : ∀ a, a ∈ os ++ A → a ∈ o :: os ++ A := by
+      intro a ha
+      rcases List.mem_append.1 ha with ha | ha
+      · simp [ha]
+      · simp [ha]
+    obtain ⟨t1, t2⟩ := C05_project1_inv st n o h hh hol
+    have hcomm : ∀ k, st.r ≤ k → k < n → anti (gAt st.rows k) o = false := by
+      intro k hk1 hk2
+      have hi : k - st.r < A.length := by have := hA.1; omega
+      have := hA.2 (k - st.r) hi
+      rw [show st.r + (k - st.r) = k by omega] at this
+      rw [this, anti_eq_false_iff]
+      have hmem : A.getD (k - st.r) [] ∈ A := by
+        rw [List.getD_eq_getElem?_getD, List.getElem?_eq_getElem hi]
+        exact List.getElem_mem hi
+      exact hcm _ (List.mem_append.2 (Or.inr hmem)) o (by simp)
+    rw [hproj]
+    rcases project1_step st n o h hol hcomm with e | ⟨e1, e2, e3⟩
+    · rw [e]
+      obtain ⟨q1, _⟩ := ih st A h hh hA (fun a ha => hlen a (hsub a ha))
+        (fun a ha b hb => hcm a (hsub a ha) b (hsub b hb))
+      refine ⟨by simp only [List.length_cons]; omega, fun hq => ?_⟩
+      simp only [List.length_cons] at hq
+      omega
+    · have hA1 : ActiveIs (project1 st o) n (o :: A) := by
+        refine ⟨by have := hA.1; simp only [List.length_cons]; omega, fun i hi => ?_⟩
+        cases i with
+        | zero => simpa using e2
+        | succ i =>
+          simp only [List.length_cons] at hi
+          have hi' : i < A.length := by omega
+          have := hA.1
+          rw [show (project1 st o).r + (i + 1) = st.r + i by omega, e3 _ (by omega) (by omega), hA.2 i hi']
+          simp
+      have hsub2 : ∀ a, a ∈ os ++ o :: A → a ∈ o :: os ++ A := by
+        intro a ha
+        rcases List.mem_append.1 ha with ha | ha
+        · simp [ha]
+        · rcases List.mem_cons.1 ha with ha | ha
+          · simp [ha]
+          · simp [ha]
+      obtain ⟨q1, q2⟩ := ih (project1 st o) (o :: A) t1 t2 hA1 (fun a ha => hlen a (hsub2 a ha))
+        (fun a ha b hb => hcm a (hsub2 a ha) b (hsub2 b hb))
+      refine ⟨by simp only [List.length_cons]; omega, fun hq => ?_⟩
+      simp only [List.length_cons] at hq
+      have := q2 (by omega)
+      rw [List.reverse_cons, List.append_assoc]
+      exact this
+
+theorem activeIs_maximallyMixed (N : Nat) : ActiveIs (maximallyMixed N) N [] :=
+  ⟨rfl, fun i hi => absurd hi (by simp)⟩
+
+/-- `stabilizer_state(list)` has the invariant whenever it succeeds (as `C05_stabilizerState_inv`, restated here so that this
+    file does not depend on `Properties/C05b`) -/
+theorem stabilizerState_inv (N : Nat) (stabs : List Pauli) (st : State) (hl : ∀ s ∈ stabs, s.g.length = N ∧ s.p % 2 = 0)
+    (hs : stabilizerState N stabs = .ok st) : TabInv st N := by
+  have hobs : ∀ o ∈ (stabs.map (·.g)).reverse, o.length = N := by
+    intro o ho
+    rw [List.mem_reverse, List.mem_map] at ho
+    obtain ⟨s, hs', rfl⟩ := ho
+    exact (hl s hs').1
+  have h0 : TabInv (maximallyMixed N) N := C05_toState_inv (idMap N) N N (C05_idMap_valid N) (Nat.le_refl N)
+  obtain ⟨hP, _⟩ := Rc.project_inv N _ (maximallyMixed N) h0 (Rc.allHerm_maximallyMixed N) hobs
+  have hev : ∀ k, (rowAt stabs k).p % 2 = 0 := Rc.rowAt_p_even stabs (fun s hs' => (hl s hs').2)
+  unfold stabilizerState at hs
+  simp only at hs
+  split at hs
+  · exact absurd hs (by simp)
+  · split at hs
+    · injection hs with hs
+      subst hs
+      apply Rc.tabInv_mapIdx_phase _ N _ hP
+      · intro i R; split <;> rfl
+      · intro i R h1 h2
+        rw [if_pos (by simp [h1, h2])]
+        exact hev _
+    · split at hs
+      · injection hs with hs
+        subst hs
+        apply Rc.tabInv_mapIdx_phase _ N _ hP
+        · intro i R; split <;> rfl
+        · intro i R h1 h2
+          rw [if_pos (by simp [h1, h2])]
+          exact hev _
+      · exact absurd hs (by simp)
+
+end Gr
 end PC
